@@ -641,6 +641,49 @@ def r_frame_assign_container(c):
     return o
 
 
+def r_frame_assign_bloc_array(c):
+    import static_frame as sf
+    A, B = elems(c.a), elems(c.b)
+    src = mk_frame(c.a, c.lay)
+    mask = np.zeros((3, 4), dtype=bool)
+    mask[0, 0] = mask[2, 0] = mask[1, 3] = True
+    key = sf.Frame(mask, index=src.index, columns=src.columns)
+    value = np.empty((3, 4), dtype=c.b.dtype)
+    for i in range(3):
+        for j in range(4):
+            value[i, j] = c.b[(i + j) % 3]
+    o = Obs([c.a.dtype, c.b.dtype])
+    f = src.assign.bloc[key](value)
+    o.arr(fcol(f, 0), [B[0], A[1], B[2]], 'bloc(array):x').arr(fcol(f, 3), [Z[0], B[(1 + 3) % 3], Z[2]], 'bloc(array):z')
+    _untouched_frame(o, f, c.a, skip=('x', 'z'))
+    # by Frame: only the labels the value holds are assigned
+    val = sf.Frame.from_items([('x', c.b)], index=['c', 'a', 'q'])
+    f = src.assign.bloc[key](val)
+    o.arr(fcol(f, 0), [B[1], A[1], B[0]], 'bloc(Frame):x')
+    _untouched_frame(o, f, c.a, skip=('x',))
+    return o
+
+
+def r_roll(c):
+    """roll moves cells without merging: every column keeps its exact dtype"""
+    import static_frame as sf
+    o = Obs([])
+    f0 = frame_from([c.a, c.b, Y], ((1, True), (1, True), (1, True)), index=IDX, column_labels=['x', 'w', 'y'])
+    f = f0.roll(1, 0)
+    for j, src in enumerate((c.a, c.b, Y)):
+        col = fcol(f, j)
+        E = elems(src)
+        o.dtype(col.dtype, src.dtype, f'roll(1,0) column {j}').arr(col, [E[2], E[0], E[1]], f'roll(1,0) column {j}')
+    f = f0.roll(0, 1)
+    for j, src in enumerate((Y, c.a, c.b)):
+        col = fcol(f, j)
+        o.dtype(col.dtype, src.dtype, f'roll(0,1) column {j}').arr(col, elems(src), f'roll(0,1) column {j}')
+    s = sf.Series(c.a, index=IDX).roll(-1)
+    A = elems(c.a)
+    o.dtype(s.values.dtype, c.a.dtype, 'Series.roll').arr(s.values, [A[1], A[2], A[0]], 'Series.roll(-1)')
+    return o
+
+
 def r_series_fillna_series(c):
     import static_frame as sf
     B = elems(c.b)
@@ -846,6 +889,8 @@ ARRAY_OPS = {
     'Series.assign(list)': (r_series_assign_list, False),
     'Frame.assign.iloc(array)': (r_frame_assign_array, True),
     'Frame.assign.loc(Series/Frame)': (r_frame_assign_container, True),
+    'Frame.assign.bloc(array/Frame)': (r_frame_assign_bloc_array, True),
+    'Frame.roll/Series.roll': (r_roll, False),
     'Series.fillna(Series)': (r_series_fillna_series, False),
     'Frame.fillna(Frame)': (r_frame_fillna_frame, True),
     'Series.from_overlay': (r_series_overlay, False),
